@@ -131,7 +131,7 @@ func init() {
 					out = append(out, c02Scope(spSingle(e, 3, 3, 1), 1), c02Scope(spSingle(e, 3, 4, 2), 1), c02Scope(spSingle(e, 3, 5, 3), 4))
 				}
 				out = append(out, c02Scope(spPair("B2", enum.Eax, 3, 3, 3, 4), 8), c02Scope(spTwo(enum.Eax, 3, 3, 4), 8),
-					c02Scope(spPair("B2", enum.Esh, 3, 3, 3, 4), 16), c02Scope(spTwo(enum.Eunit, 3, 3, 4), 16), c02Scope(spThree(enum.Eax, 13, 5), 16), c02Scope(spTwoLevel(11, 7, 5), 16), c02Scope(spShapes(enum.Eax, 4, 5), 16))
+					c02Scope(spPair("B2", enum.Esh, 3, 3, 3, 4), 16), c02Scope(spTwo(enum.Eunit, 3, 3, 4), 16), c02Scope(spThree(enum.Eax, 13, 5), 16), c02Scope(spTwoLevel(11, 7, 5), 16), c02Scope(spShapes(enum.Eax, 4, 5), 16), c02Scope(spNudged(enum.Eax, 2), 1), c02Scope(spNudged(enum.Ean, 2), 1), c02Scope(spNudged(enum.Esh, 2), 1))
 				return out
 			}
 			for _, sp := range boolSpaces("thorough") {
